@@ -32,11 +32,12 @@ func c03(c *an.Ctx) {
 		if f == nil {
 			return
 		}
-		wl := f.Find(call(r, I+":MmsTables.writeCompactedFileInfo"))
+		// (a helper that wraps the log write or the log removal faithfully stands for it)
+		wl := f.Find(call(r, I+":MmsTables.writeCompactedFileInfo")).WithWrappers()
 		rn := f.Find(call(r, renameSpec))
 		delList := f.Find(call(r, I+":TSSPFiles.deleteFile"))
 		delFiles := f.Find(call(r, I+":MmsTables.deleteFiles"))
-		rmAll := f.Find(call(r, "lib/fileops:Remove"))
+		rmAll := f.Find(call(r, "lib/fileops:Remove")).WithWrappers()
 		srt := f.Find(call(r, "sort:Sort"))
 		if r.Failed() {
 			return
@@ -60,21 +61,31 @@ func c03(c *an.Ctx) {
 			if len(ce.Args) == 0 {
 				return false
 			}
-			id, ok := ast.Unparen(ce.Args[0]).(*ast.Ident)
-			if !ok {
-				return false
-			}
-			v, _ := f.Info.Uses[id].(*types.Var)
-			if v == nil || v.Name() == "" {
-				return false
-			}
-			// must be the variable assigned from writeCompactedFileInfo
+			// must be given the variable assigned from writeCompactedFileInfo: as the first argument
+			// of fileops.Remove, as any argument of a wrapper of it
 			as, ok := f.G.Vs[wl.List[0].V].Node.(*ast.AssignStmt)
 			if !ok || len(as.Lhs) == 0 {
 				return false
 			}
 			lid, ok := as.Lhs[0].(*ast.Ident)
-			if !ok || f.Info.Uses[lid] != v && f.Info.Defs[lid] != v {
+			if !ok {
+				return false
+			}
+			logVar := f.Info.Uses[lid]
+			if logVar == nil {
+				logVar = f.Info.Defs[lid]
+			}
+			args := ce.Args[:1]
+			if cal := an.Callee(f.Info, ce); cal == nil || cal.Pkg() == nil || !strings.HasSuffix(cal.Pkg().Path(), "lib/fileops") {
+				args = ce.Args
+			}
+			given := false
+			for _, a := range args {
+				if id, ok := ast.Unparen(a).(*ast.Ident); ok && logVar != nil && f.Info.Uses[id] == logVar {
+					given = true
+				}
+			}
+			if !given {
 				return false
 			}
 			e, ok := f.SuccessEdge(wl.List[0])
@@ -213,8 +224,17 @@ func c03(c *an.Ctx) {
 				f.FollowedBy(r, ref, unref, nil, "refMmsTable ⇒ unrefMmsTable on every exit")
 			}
 		}
+		// the single-use helper mergePrepare may have been inlined into merge (anchor relocation
+		// then resolves it to merge itself): the acquire is then the step that can refuse
+		prepInlined := false
+		if po, mo := c.P.Obj(I+":mergeTool.mergePrepare"), c.P.Obj(I+":mergeTool.merge"); po != nil && po == mo {
+			prepInlined = true
+		}
 		if f := fn(r, I+":mergeTool.merge"); f != nil {
 			prep := f.Find(call(r, I+":mergeTool.mergePrepare"))
+			if prepInlined {
+				prep = f.Find(call(r, I+":MmsTables.acquire"))
+			}
 			done := f.Find(call(r, I+":MmsTables.CompactDone"))
 			if !r.Failed() {
 				f.FollowedByOnSuccess(r, prep, done, nil, "mergePrepare(true) ⇒ CompactDone on every exit")
@@ -223,7 +243,7 @@ func c03(c *an.Ctx) {
 				f.Precedes(r, prep, done, an.OrderOpt{Success: true, DeferredB: true, Label: "CompactDone (also a deferred one) is set up only after mergePrepare succeeded"})
 			}
 		}
-		if f := fn(r, I+":mergeTool.mergePrepare"); f != nil {
+		if f := fn(r, I+":mergeTool.mergePrepare"); f != nil && !prepInlined {
 			acq := f.Find(call(r, I+":MmsTables.acquire"))
 			rt := f.Find(an.ReturnsBool(0, true))
 			if !r.Failed() {
